@@ -344,7 +344,8 @@ def k_mrf(c):
     l1 = f"mrfE {head} {c['ngb']} {ilist(vox.ravel())} {ilist(U0.ravel())} {ilist(ppm0.ravel())}"
     l2 = f"mrfW {head} {ilist(vox.ravel())}"
     o1 = f"{int(e)} ok" if np.isfinite(e) and e == int(e) else f"{e!r} ok"
-    return {"lines": [l1, l2], "impl": [o1, ints(outs[0][1])], "fail": fail,
+    l3 = f"veW {head} {ilist(vox.ravel())}"
+    return {"lines": [l1, l2, l3], "impl": [o1, ints(outs[0][1]), ints(outs[0][1])], "fail": fail,
             "tags": ["k=mrf", f"ngb={c['ngb']}", "singleton-axis" if 1 in c["dims"][:3] else "axes>1"]}
 
 
@@ -406,6 +407,17 @@ def k_jh(c):
                 lines.pop()
         elif nz.size and fail is None:
             fail = f"joint_histogram deposited mass for the non-finite coordinate {p}"
+    # frame: rows of H that no source intensity names are equal before and after (zero); the bins written for intensity i
+    # are `j + clampJ*i` (store side of the model)
+    valid = {int(v) for v in I0 if 0 <= int(v) < clampI}
+    for r in range(clampI):
+        nzr = np.flatnonzero(H[r])
+        if r not in valid:
+            if nzr.size and fail is None:
+                fail = f"joint_histogram wrote row {r} of H, which is the intensity of no source voxel (frame)"
+        elif nzr.size and all(all(finite(t) for t in p) for p in pts):
+            lines.append(f"jhW {r} {max(size, 1)} {ilist(nzr)}")
+            impl.append(ints(np.flatnonzero(H.ravel())[(np.flatnonzero(H.ravel()) // max(size, 1)) == r]))
     return {"lines": lines, "impl": impl, "fail": fail,
             "tags": ["k=jh", f"interp={c['interp']}", "layoutI=" + c.get("layoutI", "C")]}
 
@@ -595,7 +607,7 @@ def k_fffit(c):
         class G:
             def guards_intact(self_):
                 return store[mask].tobytes() == before[mask].tobytes()
-        return (tuple(seen), arr.ndims, bits([mn.value, mx.value])), [("buffer", G())]
+        return (tuple(seen), arr.ndims, bits([mn.value, mx.value]), (int(it.size), int(it.idx))), [("buffer", G())]
     rs = np.random.RandomState(c["seed"]); outs0 = None
     outs, fail = [], None
     for fill in (0, 1):
@@ -610,7 +622,8 @@ def k_fffit(c):
     if fail is None and any(o < 0 or o >= 8 * ext or o % 8 for o in seen):
         fail = f"the fff_array iterator leaves the view: byte offsets {seen[:12]} of an extent of {8 * ext} bytes"
     line = "fffit " + ints(dims) + " " + ints(8 * o for o in offs) + f" {axis}"
-    return {"lines": [line], "impl": [ints(seen)], "fail": fail,
+    line2 = "fffn " + ints(dims) + " " + ints(8 * o for o in offs) + f" {axis}"
+    return {"lines": [line, line2], "impl": [ints(seen), ints(outs[0][3])], "fail": fail,
             "tags": ["k=fffit", f"ndims={outs[0][1]}", "skip-axis" if axis >= 0 else "full-scan"]}
 
 
@@ -630,7 +643,7 @@ def k_fffpy(c):
     p = lib.fffpy_multi_iterator_new(C.c_int(2), C.c_int(axis), C.py_object(Y.view), C.py_object(T.view))
     fail = None
     if not p:
-        return {"lines": [], "impl": [], "fail": None, "tags": ["k=fffpy", "refused"]}
+        return {"lines": [f"fffax {axis} {nd}"], "impl": ["refused"], "fail": None, "tags": ["k=fffpy", "refused"]}
     from harness.props.C16 import FIter
     it = C.cast(p, C.POINTER(FIter)).contents
     got = (it.axis, it.size, it.vector[0].contents.size, it.vector[1].contents.size)
@@ -652,7 +665,7 @@ def k_fffpy(c):
     lib.fffpy_multi_iterator_delete(p)
     if fail is None and not (Y.guards_intact() and T.guards_intact()):
         fail = "sentinel words around the arrays of the multi-iterator were overwritten"
-    return {"lines": [], "impl": [], "fail": fail,
+    return {"lines": [f"fffax {axis} {nd}"], "impl": [str(got[0])], "fail": fail,
             "tags": ["k=fffpy", "axis<0" if axis < 0 else "axis>=0", "layout=" + c["layout"]]}
 
 
